@@ -388,12 +388,13 @@ type frameCfg struct {
 	DupPct   int
 	Seed     uint64
 	MaxBytes int
+	Flood    bool // a burst of several thousand SendOOB calls in a tight loop in the middle of the transfer
 	Slow     bool // readers start late behind a 4-segment receive window: zero-window probes (WASK/WINS) on the wire
 }
 
 func (c frameCfg) String() string {
-	return fmt.Sprintf("id=%d cipher=%s fec=%d/%d mtu=%s pattern=%d oob=%d clients=%d loss=%d dup=%d slow=%v seed=%d",
-		c.ID, frameCiphers()[c.Cipher].name, c.D, c.P, frameMtuNames[c.MtuKind], c.Pattern, c.OOBMode, c.Clients, c.LossPct, c.DupPct, c.Slow, c.Seed)
+	return fmt.Sprintf("id=%d cipher=%s fec=%d/%d mtu=%s pattern=%d oob=%d clients=%d loss=%d dup=%d slow=%v flood=%v seed=%d",
+		c.ID, frameCiphers()[c.Cipher].name, c.D, c.P, frameMtuNames[c.MtuKind], c.Pattern, c.OOBMode, c.Clients, c.LossPct, c.DupPct, c.Slow, c.Flood, c.Seed)
 }
 
 type frameFinding struct {
@@ -449,6 +450,18 @@ func (s *frameSide) onOOB(b []byte) {
 }
 
 func frameChunks(rng *vrng, pattern, mss, maxBytes int) []int {
+	reps := 1
+	if vThorough() {
+		reps = 3
+	}
+	var out []int
+	for r := 0; r < reps; r++ {
+		out = append(out, frameChunksOnce(rng, pattern, mss, maxBytes/reps)...)
+	}
+	return out
+}
+
+func frameChunksOnce(rng *vrng, pattern, mss, maxBytes int) []int {
 	var out []int
 	total := 0
 	add := func(n int) {
@@ -510,10 +523,14 @@ func frameOOBPayload(rng *vrng, tag byte, idx, size int) []byte {
 }
 
 // writer: the chunks of the stream with OOB messages interleaved at random points
-func (s *frameSide) run(rng *vrng, oob bool, res *frameResult, resMu *sync.Mutex, chunks []int, data []byte) {
+func (s *frameSide) run(rng *vrng, oob, flood bool, res *frameResult, resMu *sync.Mutex, chunks []int, data []byte) {
 	sess := s.sess
 	off := 0
 	idx := 0
+	floodAt := -1
+	if flood && oob {
+		floodAt = len(chunks) / 2
+	}
 	sendOOB := func() {
 		max := sess.GetOOBMaxSize()
 		sizes := []int{0, 1, max - 1, max, max + 1, rng.intn(max + 1)}
@@ -540,7 +557,22 @@ func (s *frameSide) run(rng *vrng, oob bool, res *frameResult, resMu *sync.Mutex
 			s.mu.Unlock()
 		}
 	}
-	for _, n := range chunks {
+	for ci, n := range chunks {
+		if ci == floodAt { // "at any rate": far more than the post-processing queue (2048) holds
+			var mine [][]byte
+			for k := 0; k < 5000; k++ {
+				p := frameOOBPayload(rng, s.tag, k, 2+rng.intn(10))
+				if sess.SendOOB(p) == nil {
+					mine = append(mine, p)
+				}
+			}
+			s.mu.Lock()
+			s.oobSent = append(s.oobSent, mine...)
+			s.mu.Unlock()
+			resMu.Lock()
+			res.dist["oob-flood-messages"] += len(mine)
+			resMu.Unlock()
+		}
 		if oob && rng.chance(60) {
 			sendOOB()
 		}
@@ -777,11 +809,11 @@ func frameRunScenario(cfg frameCfg) *frameResult {
 		wg.Add(2)
 		go func() { // the client's first chunk is already written
 			defer wg.Done()
-			c.run(rc, oob, res, &resMu, c.chunks[1:], c.written[c.chunks[0]:])
+			c.run(rc, oob, cfg.Flood, res, &resMu, c.chunks[1:], c.written[c.chunks[0]:])
 		}()
 		go func() {
 			defer wg.Done()
-			sv.run(rs, oob, res, &resMu, sv.chunks, sv.written)
+			sv.run(rs, oob, cfg.Flood, res, &resMu, sv.chunks, sv.written)
 		}()
 		d1, d2 := make(chan struct{}), make(chan struct{})
 		dones = append(dones, d1, d2)
@@ -936,7 +968,9 @@ func frameAnalyse(res *frameResult, ciph frameCipher, key []byte, cfg frameCfg, 
 	nonces := map[string]int{}
 	logCap := 1 << 30 // the driver replays a prefix of every direction; the monitors see everything
 	if vThorough() {
-		logCap = 60
+		logCap = 30
+	} else if cfg.Flood {
+		logCap = 400
 	}
 	for ci, c := range caps {
 		d := dirs[c.from+">"+c.to]
@@ -1268,7 +1302,7 @@ func frameScenarios(rng *vrng, prop string) []frameCfg {
 		if c.MtuKind == 0 {
 			c.MaxBytes = 160 + rng.intn(160)
 		} else if vThorough() {
-			c.MaxBytes = 80000
+			c.MaxBytes = 150000
 		} else {
 			c.MaxBytes = 40000
 		}
@@ -1286,12 +1320,12 @@ func frameScenarios(rng *vrng, prop string) []frameCfg {
 	}
 	lossOf := func() (int, int) { return rng.pick(0, 5, 10, 15), rng.pick(0, 5, 10) }
 	if vThorough() {
-		// full product cipher x FEC x MTU, pattern / OOB mode / faults drawn per cell
-		for ci := 0; ci < nc; ci++ {
+		// full product cipher x FEC x MTU (twice), pattern / OOB mode / faults drawn per cell
+		for ci := 0; ci < 2*nc; ci++ {
 			for _, f := range frameFecs {
 				for mk := 0; mk < 4; mk++ {
 					l, d := lossOf()
-					c := frameCfg{Cipher: ci, D: f[0], P: f[1], MtuKind: mk, Pattern: rng.intn(4), OOBMode: rng.intn(4), LossPct: l, DupPct: d}
+					c := frameCfg{Cipher: ci % nc, D: f[0], P: f[1], MtuKind: mk, Pattern: rng.intn(4), OOBMode: rng.intn(4), LossPct: l, DupPct: d}
 					if prop == "C19" && c.OOBMode == 0 {
 						c.OOBMode = 1
 					}
@@ -1305,7 +1339,7 @@ func frameScenarios(rng *vrng, prop string) []frameCfg {
 		for i := 0; i < 40; i++ { // extra random cells, all patterns
 			l, d := lossOf()
 			f := frameFecs[rng.intn(len(frameFecs))]
-			add(frameCfg{Cipher: rng.intn(nc), D: f[0], P: f[1], MtuKind: rng.intn(4), Pattern: i % 4, OOBMode: 1 + rng.intn(3), LossPct: l, DupPct: d, Clients: 1 + 2*(i%2), Slow: i%5 == 0})
+			add(frameCfg{Cipher: rng.intn(nc), D: f[0], P: f[1], MtuKind: rng.intn(4), Pattern: i % 4, OOBMode: 1 + rng.intn(3), LossPct: l, DupPct: d, Clients: 1 + 2*(i%2), Slow: i%5 == 0, Flood: prop == "C19" && i%5 == 2})
 		}
 		return out
 	}
@@ -1332,6 +1366,7 @@ func frameScenarios(rng *vrng, prop string) []frameCfg {
 			}
 		}
 		c.Slow = i%15 == 7
+		c.Flood = prop == "C19" && i%12 == 3
 		add(c)
 	}
 	return out
